@@ -242,6 +242,7 @@ func (m *Model) classifyMapLoop(ml *mapLoop) *mapLoopVerdict {
 				args := st.argsFor(x, nil)
 				impure := ""
 				known := false
+				perKeyCalls := 0
 				for _, cal := range callees {
 					sum := ea.sums[cal]
 					if sum == nil {
@@ -254,6 +255,13 @@ func (m *Model) classifyMapLoop(ml *mapLoop) *mapLoopVerdict {
 							impure = fmt.Sprintf("%s writes package-level %s", fnKey(cal), w.o.g.Name())
 						case oParam:
 							if w.o.idx < len(args) && !local(args[w.o.idx]) && !taint[args[w.o.idx]] {
+								// a per-key update made by a helper: the helper stores under its key parameter, the key handed in
+								// comes from the loop key, and the object written is fresh to this activation (it is given up
+								// when the loop is left early) — commutative like the direct `obj[key] = v`
+								if w.kind == "mapupdate" && w.keyParam1 > 0 && w.keyParam1-1 < len(args) && keyDerived(args[w.keyParam1-1]) && freshHere(args[w.o.idx]) {
+									perKeyCalls++
+									continue
+								}
 								impure = fmt.Sprintf("%s writes through %s (%s at %s)", fnKey(cal), valueDesc(args[w.o.idx]), w.what, w.pos)
 							}
 						}
@@ -270,6 +278,9 @@ func (m *Model) classifyMapLoop(ml *mapLoop) *mapLoopVerdict {
 					if com.IsInvoke() && strings.HasPrefix(com.Method.Name(), "Write") {
 						impure = "Write on " + valueDesc(com.Value)
 					}
+				}
+				if impure == "" && perKeyCalls > 0 {
+					effects++ // per-key update through a helper: commutative, on memory fresh to this activation
 				}
 				if impure != "" {
 					effects++
